@@ -58,6 +58,49 @@ def signature(program, cname):
     return finfo, params, node.rettype
 
 
+def native_c_batch(program, calls, timeout=300):
+    """calls: list of (cname, args[, id]); later calls may pass {'ref': [id, param]} to receive the contents
+    an earlier call left in one of its buffers.  Returns outcomes; after a sanitizer abort the remaining
+    calls of the batch are marked skipped (chains would be broken)."""
+    so = build_so(program)
+    structs = None
+    reqs = []
+    for item in calls:
+        cname, args = item[0], item[1]
+        finfo, params, ret = signature(program, cname)
+        if structs is None:
+            structs = {n: f for n, f in program.structs.items() if not n.startswith('struct ') and all(
+                t.replace('const ', '').strip() in ('idx_t', 'seq_t', 'bool', 'int', 'double', '_Bool') for _, t in f)}
+        d = dict(func=cname.split('::')[1], ret=ret, params=params, args=args)
+        if len(item) > 2:
+            d['id'] = item[2]
+        reqs.append(d)
+    env = dict(os.environ)
+    env['LD_PRELOAD'] = subprocess.run(['gcc', '-print-file-name=libasan.so'], capture_output=True, text=True).stdout.strip()
+    env['ASAN_OPTIONS'] = 'detect_leaks=0:abort_on_error=0:halt_on_error=1'
+    env['UBSAN_OPTIONS'] = 'print_stacktrace=1:halt_on_error=1'
+    req = json.dumps(dict(so=so, structs=structs, calls=reqs))
+    try:
+        p = subprocess.run([sys.executable, RUNNER], input=req, capture_output=True, text=True, timeout=timeout, env=env)
+        stdout, stderr, rc = p.stdout, p.stderr, p.returncode
+    except subprocess.TimeoutExpired as e:
+        stdout, stderr, rc = (e.stdout or b'').decode() if isinstance(e.stdout, bytes) else (e.stdout or ''), 'timeout', -9
+    outs = [None] * len(reqs)
+    cur = None
+    for line in stdout.splitlines():
+        if line.startswith('@@ '):
+            cur = int(line[3:])
+        elif line.startswith('## '):
+            outs[cur] = json.loads(line[3:])
+            cur = None
+    if cur is not None:
+        msg = [l for l in stderr.splitlines() if 'ERROR' in l or 'runtime error' in l or 'SUMMARY' in l][:4]
+        outs[cur] = dict(ok=False, exc='sanitizer: ' + (' | '.join(msg) or stderr[-300:] or 'rc=%s' % rc))
+    elif rc != 0 and not any(outs):
+        raise RuntimeError('C runner failed: %s' % stderr[-500:])
+    return outs
+
+
 def native_c_calls(program, cname, arglist, timeout=120):
     """Run the real function on each args dict; returns outcomes (same order)."""
     so = build_so(program)
